@@ -46,6 +46,14 @@ inductive SMsg where
   | rev (h : Nat)
 deriving DecidableEq, Repr, Inhabited
 
+def SMsg.isSig : SMsg → Bool
+  | .sig .. => true
+  | _ => false
+
+def SMsg.isRev : SMsg → Bool
+  | .rev _ => true
+  | _ => false
+
 structure SNode where
   lt : Nat := 0                 -- LocalCommitment.CommitHeight (durable)
   ltIdx : Idx := ⟨0, 0⟩
@@ -299,6 +307,62 @@ def SSys.run (s : SSys) (steps : List SStep) : SSys := steps.foldl SSys.step s
 
 /-- the initial system (height 0, nothing sent). -/
 def SSys.init : SSys := {}
+
+/-! ## the same system under the discipline of lnd's link
+
+`htlcswitch/link.go` answers an accepted commitment_signed with `RevokeCurrentCommitment` in the
+same message handler, before it reads anything else; a channel never processes another message
+while it holds an unrevoked commitment.  (A crash between `ReceiveNewCommitment` and
+`RevokeCurrentCommitment` loses the received commitment, which is the same as not having
+received it: `crash_before_revoke` in `Props.lean`.) -/
+
+/-- deliver the oldest message a → b; a commitment_signed is revoked for at once. -/
+def SSys.dlvRevAB (s : SSys) : SSys :=
+  match s.ab with
+  | [] => s
+  | m :: _ => if m.isSig then s.dlvAB.actB .revoke else s.dlvAB
+
+def SSys.dlvRevBA (s : SSys) : SSys :=
+  match s.ba with
+  | [] => s
+  | m :: _ => if m.isSig then s.dlvBA.actA .revoke else s.dlvBA
+
+def SSys.dlvRevABn : Nat → SSys → SSys
+  | 0, s => s
+  | k + 1, s => SSys.dlvRevABn k s.dlvRevAB
+
+def SSys.dlvRevBAn : Nat → SSys → SSys
+  | 0, s => s
+  | k + 1, s => SSys.dlvRevBAn k s.dlvRevBA
+
+def SSys.lcutPre (s : SSys) (kA kB : Nat) : SSys :=
+  (SSys.dlvRevBAn kB (SSys.dlvRevABn kA s)).dropReload
+
+inductive LStep where
+  | updA (f : Bool) | updB (f : Bool) | signA | signB | dlvAB | dlvBA
+  | cut (c : SyncCfg) (kA kB : Nat)
+  | halfCut (c : SyncCfg) (kA kB : Nat) (sideA : Bool)
+deriving Repr
+
+def SSys.lstep (s : SSys) : LStep → SSys
+  | .updA f => s.actA (.upd f)
+  | .updB f => s.actB (.upd f)
+  | .signA => s.actA .sign
+  | .signB => s.actB .sign
+  | .dlvAB => s.dlvRevAB
+  | .dlvBA => s.dlvRevBA
+  | .cut c kA kB =>
+    match (s.lcutPre kA kB).resync c with
+    | .ok s' => s'
+    | .error _ => s
+  | .halfCut c kA kB sideA =>
+    match (s.lcutPre kA kB).halfSync c sideA with
+    | .ok s1 => (match s1.resync c with
+      | .ok s' => s'
+      | .error _ => s)
+    | .error _ => s
+
+def SSys.lrun (s : SSys) (steps : List LStep) : SSys := steps.foldl SSys.lstep s
 
 /-! ## the C01 node with its durable sync flag -/
 
